@@ -201,7 +201,7 @@ class Complementary:
             raise ValueError(f"All inputs must have at least two observations.")
         if self.acc.shape != self.gyr.shape:
             raise ValueError(f"Could not operate on acc array of shape {self.acc.shape} and gyr array of shape {self.gyr.shape}.")
-        W = np.zeros_like(self.acc)
+        W = np.zeros(self.acc.shape)
         if self.mag is None:
             # Estimation with IMU only (Gyroscopes and Accelerometers)
             W2 = self.am_estimation(self.acc)
